@@ -312,7 +312,7 @@ func TestVerifC20Cred(t *testing.T) {
 func TestVerifC20RaceBodies(t *testing.T) {
 	r := vkit.Start(t, "C20", "race-pass-gabi", 200*time.Second, 900*time.Second)
 	defer r.Finish()
-	r.Rule = "free-running -race pass (detector over observed executions, not exhaustive): the same bodies as the explored harnesses (cold, warm and stale warm cache) with 2..16 goroutines released by a barrier, R repetitions, GOMAXPROCS in {2,4,16}; a DATA RACE report fails the binary and is reported by the runner; non-trivial = distinct (harness,goroutines,repetition)"
+	r.Rule = "free-running -race pass (detector over observed executions, not exhaustive): the same bodies as the explored harnesses (cold cache with a public-key object never used before, warm and stale warm cache) with 2..16 goroutines released by a barrier, R repetitions, GOMAXPROCS in {2,4,16}; a DATA RACE report fails the binary and is reported by the runner; non-trivial = distinct (harness,goroutines,repetition)"
 	k := vfK("toyB")
 	pk := k.Pk
 	reps := vkit.Pick(6, 40)
@@ -341,6 +341,11 @@ func TestVerifC20RaceBodies(t *testing.T) {
 					if err := cred.NonrevPrepareCache(); err != nil {
 						t.Fatal(err)
 					}
+				}
+				if cold {
+					// first use of a key object by several goroutines at once: the credential gets a public-key
+					// object that no library function has touched yet
+					cred.Pk = vfFreshPk(k)
 				}
 				var wg sync.WaitGroup
 				start := make(chan struct{})
